@@ -433,3 +433,305 @@ package thrift
 //@   loop 3 invariant i <= L ==> vs.FieldsLenD(B, maxdepth) == vs.Then(i, vs.FieldsLenD(B[i:], maxdepth))
 //@   loop 3 invariant i > L ==> vs.FieldsLenD(B, maxdepth) == -1
 //@   loop 3 decreases L + 8 - i
+
+// ---- stream reader (over the bufiox.Reader interface contract: every fragmentation at once) ----
+
+//@ pred srcWrap(err) = istype(err, *ProtocolException)
+
+//@ func BufferReader.next
+//@   arith int
+//@   props C01, C02, C03, C08, C12, C17
+//@   requires !isnil(r.r)
+//@   ensures (err == nil) == (0 <= n && n <= len(old(r.r.$u)))
+//@   ensures err == nil ==> len(b) == n && eqbytes(b, 0, old(r.r.$u), 0, n) && rdTake(r.r, n)
+//@   ensures err != nil ==> rdSame(r.r)
+//@   ensures[C17] err != nil ==> srcWrap(err)
+//@   assigns r.r.$u, r.r.$readlen
+
+//@ func BufferReader.ReadBool
+//@   arith int
+//@   props C01, C03, C17
+//@   requires !isnil(r.r)
+//@   let U = r.r.$u
+//@   ensures (err == nil) == (1 <= len(U))
+//@   ensures err == nil ==> (v <==> U[0] == 1) && rdTake(r.r, 1)
+//@   ensures err != nil ==> rdSame(r.r) && !v
+//@   ensures[C17] err != nil ==> srcWrap(err)
+//@   assigns r.r.$u, r.r.$readlen
+
+//@ func BufferReader.ReadByte
+//@   arith int
+//@   props C01, C03, C17
+//@   requires !isnil(r.r)
+//@   let U = r.r.$u
+//@   ensures (err == nil) == (1 <= len(U))
+//@   ensures err == nil ==> v == int8(U[0]) && rdTake(r.r, 1)
+//@   ensures err != nil ==> rdSame(r.r) && v == 0
+//@   ensures[C17] err != nil ==> srcWrap(err)
+//@   assigns r.r.$u, r.r.$readlen
+
+//@ func BufferReader.ReadI16
+//@   arith int
+//@   props C01, C03, C17
+//@   requires !isnil(r.r)
+//@   let U = r.r.$u
+//@   ensures (err == nil) == (2 <= len(U))
+//@   ensures err == nil ==> v == int16(vs.BE16(U, 0)) && rdTake(r.r, 2)
+//@   ensures err != nil ==> rdSame(r.r) && v == 0
+//@   ensures[C17] err != nil ==> srcWrap(err)
+//@   assigns r.r.$u, r.r.$readlen
+
+//@ func BufferReader.ReadI32
+//@   arith int
+//@   props C01, C03, C17
+//@   requires !isnil(r.r)
+//@   let U = r.r.$u
+//@   ensures (err == nil) == (4 <= len(U))
+//@   ensures err == nil ==> v == int32(vs.BE32(U, 0)) && rdTake(r.r, 4)
+//@   ensures err != nil ==> rdSame(r.r) && v == 0
+//@   ensures[C17] err != nil ==> srcWrap(err)
+//@   assigns r.r.$u, r.r.$readlen
+
+//@ func BufferReader.ReadI64
+//@   arith int
+//@   props C01, C03, C17
+//@   requires !isnil(r.r)
+//@   let U = r.r.$u
+//@   ensures (err == nil) == (8 <= len(U))
+//@   ensures err == nil ==> v == int64(vs.BE64(U, 0)) && rdTake(r.r, 8)
+//@   ensures err != nil ==> rdSame(r.r) && v == 0
+//@   ensures[C17] err != nil ==> srcWrap(err)
+//@   assigns r.r.$u, r.r.$readlen
+
+//@ func BufferReader.ReadDouble
+//@   arith int
+//@   props C01, C03, C17
+//@   requires !isnil(r.r)
+//@   let U = r.r.$u
+//@   ensures (err == nil) == (8 <= len(U))
+//@   ensures err == nil ==> math.Float64bits(v) == vs.BE64(U, 0) && rdTake(r.r, 8)
+//@   ensures err != nil ==> rdSame(r.r) && math.Float64bits(v) == 0
+//@   ensures[C17] err != nil ==> srcWrap(err)
+//@   assigns r.r.$u, r.r.$readlen
+
+//@ func BufferReader.readBinary
+//@   arith int
+//@   props C01, C03, C16, C17
+//@   requires !isnil(r.r)
+//@   let U = r.r.$u
+//@   ensures 0 <= n && n <= len(bs) && n <= len(U) && eqbytes(bs, 0, U, 0, n) && rdTake(r.r, n)
+//@   ensures (n == len(bs)) == (len(bs) <= len(U))
+//@   ensures (err == nil) == (n == len(bs))
+//@   ensures[C17] err != nil ==> srcWrap(err)
+//@   assigns bs[0:len(bs)], r.r.$u, r.r.$readlen
+
+//@ func BufferReader.skipn
+//@   arith int
+//@   props C02, C03, C08, C17
+//@   requires !isnil(r.r)
+//@   let U = r.r.$u
+//@   ensures n < 0 ==> err == errNegativeSize && rdSame(r.r)
+//@   ensures n >= 0 ==> (err == nil) == (n <= len(U))
+//@   ensures err == nil ==> rdTake(r.r, n)
+//@   ensures err != nil ==> rdSame(r.r)
+//@   ensures[C17] err != nil ==> srcWrap(err)
+//@   assigns r.r.$u, r.r.$readlen
+
+//@ func BufferReader.Readn
+//@   arith int
+//@   props C01, C04
+//@   requires !isnil(r.r)
+//@   ensures ret == int64(r.r.$readlen)
+
+//@ func BufferReader.ReadBinary
+//@   arith int
+//@   props C01, C03, C16, C17
+//@   requires !isnil(r.r)
+//@   let U = r.r.$u
+//@   let sz = int(int32(vs.BE32(U, 0)))
+//@   ensures len(U) < 4 ==> err != nil && rdSame(r.r)
+//@   ensures len(U) >= 4 && sz < 0 ==> err == errNegativeSize && rdTake(r.r, 4)
+//@   ensures len(U) >= 4 && sz >= 0 && len(U) < 4 + sz ==> err != nil
+//@   ensures len(U) >= 4 && sz >= 0 && len(U) >= 4 + sz ==> err == nil && len(b) == sz && eqbytes(b, 0, U, 4, sz) && rdTake(r.r, 4 + sz)
+//@   ensures[C16] err == nil ==> fresh(b)
+//@   ensures[C17] err != nil ==> srcWrap(err)
+//@   assigns r.r.$u, r.r.$readlen
+
+//@ func BufferReader.ReadString
+//@   arith int
+//@   props C01, C03, C12, C16, C17
+//@   requires !isnil(r.r)
+//@   let U = r.r.$u
+//@   let sz = int(int32(vs.BE32(U, 0)))
+//@   ensures len(U) < 4 ==> err != nil && rdSame(r.r)
+//@   ensures len(U) >= 4 && sz < 0 ==> err == errNegativeSize && rdTake(r.r, 4)
+//@   ensures len(U) >= 4 && sz >= 0 && len(U) < 4 + sz ==> err != nil
+//@   ensures len(U) >= 4 && sz >= 0 && len(U) >= 4 + sz ==> err == nil && len(s) == sz && eqbytes(s, 0, U, 4, sz) && rdTake(r.r, 4 + sz)
+//@   ensures[C16] err == nil ==> fresh(s)
+//@   ensures[C17] err != nil ==> srcWrap(err)
+//@   assigns r.r.$u, r.r.$readlen
+
+//@ func BufferReader.ReadMessageBegin
+//@   arith int
+//@   props C03, C12, C17
+//@   requires !isnil(r.r)
+//@   let U = r.r.$u
+//@   let hdr = vs.BE32(U, 0)
+//@   let nsz = int(int32(vs.BE32(U, 4)))
+//@   ensures len(U) < 4 ==> err != nil && rdSame(r.r)
+//@   ensures len(U) >= 4 && hdr & 0xffff0000 != 0x80010000 ==> err == errBadVersion && rdTake(r.r, 4)
+//@   ensures len(U) >= 8 && hdr & 0xffff0000 == 0x80010000 && nsz < 0 ==> err == errNegativeSize
+//@   ensures len(U) >= 4 && hdr & 0xffff0000 == 0x80010000 && (len(U) < 8 || (nsz >= 0 && len(U) < 12 + nsz)) ==> err != nil
+//@   ensures len(U) >= 8 && hdr & 0xffff0000 == 0x80010000 && nsz >= 0 && len(U) >= 12 + nsz ==>
+//@           err == nil && typeID == int32(hdr & 0xffff) && len(name) == nsz && eqbytes(name, 0, U, 8, nsz) && seq == int32(vs.BE32(U, 8 + nsz)) && rdTake(r.r, 12 + nsz)
+//@   ensures[C17] err != nil ==> srcWrap(err)
+//@   assigns r.r.$u, r.r.$readlen
+
+//@ func BufferReader.ReadFieldBegin
+//@   arith int
+//@   props C01, C03, C17
+//@   requires !isnil(r.r)
+//@   let U = r.r.$u
+//@   ensures len(U) < 1 ==> err != nil && rdSame(r.r)
+//@   ensures len(U) >= 1 && U[0] == 0 ==> err == nil && typeID == 0 && id == 0 && rdTake(r.r, 1)
+//@   ensures len(U) >= 1 && U[0] != 0 && len(U) < 3 ==> err != nil && rdTake(r.r, 1)
+//@   ensures len(U) >= 3 && U[0] != 0 ==> err == nil && typeID == int8(U[0]) && id == int16(vs.BE16(U, 1)) && rdTake(r.r, 3)
+//@   ensures[C17] err != nil ==> srcWrap(err)
+//@   assigns r.r.$u, r.r.$readlen
+
+//@ func BufferReader.ReadMapBegin
+//@   arith int
+//@   props C01, C03, C17
+//@   requires !isnil(r.r)
+//@   let U = r.r.$u
+//@   ensures (err == nil) == (6 <= len(U))
+//@   ensures err == nil ==> kt == int8(U[0]) && vt == int8(U[1]) && size == int(vs.BE32(U, 2)) && rdTake(r.r, 6)
+//@   ensures err != nil ==> rdSame(r.r)
+//@   ensures[C17] err != nil ==> srcWrap(err)
+//@   assigns r.r.$u, r.r.$readlen
+
+//@ func BufferReader.ReadListBegin
+//@   arith int
+//@   props C01, C03, C17
+//@   requires !isnil(r.r)
+//@   let U = r.r.$u
+//@   ensures (err == nil) == (5 <= len(U))
+//@   ensures err == nil ==> et == int8(U[0]) && size == int(vs.BE32(U, 1)) && rdTake(r.r, 5)
+//@   ensures err != nil ==> rdSame(r.r)
+//@   ensures[C17] err != nil ==> srcWrap(err)
+//@   assigns r.r.$u, r.r.$readlen
+
+//@ func BufferReader.ReadSetBegin
+//@   arith int
+//@   props C01, C03, C17
+//@   requires !isnil(r.r)
+//@   let U = r.r.$u
+//@   ensures (err == nil) == (5 <= len(U))
+//@   ensures err == nil ==> et == int8(U[0]) && size == int(vs.BE32(U, 1)) && rdTake(r.r, 5)
+//@   ensures err != nil ==> rdSame(r.r)
+//@   ensures[C17] err != nil ==> srcWrap(err)
+//@   assigns r.r.$u, r.r.$readlen
+
+// ---- stream writer (over the bufiox.Writer interface contract) ----
+// "err == nil ==> the stream grew by exactly one region of the advertised length that holds the encoding"
+
+//@ func BufferWriter.WriteFieldBegin
+//@   props C01
+//@   requires !isnil(w.w)
+//@   ensures ret == nil ==> wrGrew(w.w, 3) && encField(w.w.$lastchunk, 0, typeID, id)
+//@   ensures ret != nil ==> wrSame(w.w)
+//@   assigns w.w.$wlen, w.w.$nchunks, w.w.$lastchunk, w.w.$prevchunk
+
+//@ func BufferWriter.WriteFieldStop
+//@   props C01
+//@   requires !isnil(w.w)
+//@   ensures ret == nil ==> wrGrew(w.w, 1) && w.w.$lastchunk[0] == 0
+//@   ensures ret != nil ==> wrSame(w.w)
+//@   assigns w.w.$wlen, w.w.$nchunks, w.w.$lastchunk, w.w.$prevchunk
+
+//@ func BufferWriter.WriteMapBegin
+//@   props C01
+//@   requires !isnil(w.w) && sizeOK(size)
+//@   ensures ret == nil ==> wrGrew(w.w, 6) && encMap(w.w.$lastchunk, 0, kt, vt, size)
+//@   ensures ret != nil ==> wrSame(w.w)
+//@   assigns w.w.$wlen, w.w.$nchunks, w.w.$lastchunk, w.w.$prevchunk
+
+//@ func BufferWriter.WriteListBegin
+//@   props C01
+//@   requires !isnil(w.w) && sizeOK(size)
+//@   ensures ret == nil ==> wrGrew(w.w, 5) && encList(w.w.$lastchunk, 0, et, size)
+//@   ensures ret != nil ==> wrSame(w.w)
+//@   assigns w.w.$wlen, w.w.$nchunks, w.w.$lastchunk, w.w.$prevchunk
+
+//@ func BufferWriter.WriteSetBegin
+//@   props C01
+//@   requires !isnil(w.w) && sizeOK(size)
+//@   ensures ret == nil ==> wrGrew(w.w, 5) && encList(w.w.$lastchunk, 0, et, size)
+//@   ensures ret != nil ==> wrSame(w.w)
+//@   assigns w.w.$wlen, w.w.$nchunks, w.w.$lastchunk, w.w.$prevchunk
+
+//@ func BufferWriter.WriteBool
+//@   props C01
+//@   requires !isnil(w.w)
+//@   ensures ret == nil ==> wrGrew(w.w, 1) && encBool(w.w.$lastchunk, 0, v)
+//@   ensures ret != nil ==> wrSame(w.w)
+//@   assigns w.w.$wlen, w.w.$nchunks, w.w.$lastchunk, w.w.$prevchunk
+
+//@ func BufferWriter.WriteByte
+//@   props C01
+//@   requires !isnil(w.w)
+//@   ensures ret == nil ==> wrGrew(w.w, 1) && encByte(w.w.$lastchunk, 0, v)
+//@   ensures ret != nil ==> wrSame(w.w)
+//@   assigns w.w.$wlen, w.w.$nchunks, w.w.$lastchunk, w.w.$prevchunk
+
+//@ func BufferWriter.WriteI16
+//@   props C01
+//@   requires !isnil(w.w)
+//@   ensures ret == nil ==> wrGrew(w.w, 2) && encI16(w.w.$lastchunk, 0, v)
+//@   ensures ret != nil ==> wrSame(w.w)
+//@   assigns w.w.$wlen, w.w.$nchunks, w.w.$lastchunk, w.w.$prevchunk
+
+//@ func BufferWriter.WriteI32
+//@   props C01
+//@   requires !isnil(w.w)
+//@   ensures ret == nil ==> wrGrew(w.w, 4) && encI32(w.w.$lastchunk, 0, v)
+//@   ensures ret != nil ==> wrSame(w.w)
+//@   assigns w.w.$wlen, w.w.$nchunks, w.w.$lastchunk, w.w.$prevchunk
+
+//@ func BufferWriter.WriteI64
+//@   props C01
+//@   requires !isnil(w.w)
+//@   ensures ret == nil ==> wrGrew(w.w, 8) && encI64(w.w.$lastchunk, 0, v)
+//@   ensures ret != nil ==> wrSame(w.w)
+//@   assigns w.w.$wlen, w.w.$nchunks, w.w.$lastchunk, w.w.$prevchunk
+
+//@ func BufferWriter.WriteDouble
+//@   props C01
+//@   requires !isnil(w.w)
+//@   ensures ret == nil ==> wrGrew(w.w, 8) && vs.BE64(w.w.$lastchunk, 0) == math.Float64bits(v)
+//@   ensures ret != nil ==> wrSame(w.w)
+//@   assigns w.w.$wlen, w.w.$nchunks, w.w.$lastchunk, w.w.$prevchunk
+
+//@ func BufferWriter.WriteMessageBegin
+//@   arith int
+//@   props C01, C12
+//@   requires !isnil(w.w) && sizeOK(len(name))
+//@   ensures ret == nil ==> wrGrew(w.w, 12 + len(name)) && encMsg(w.w.$lastchunk, 0, name, typeID, seq)
+//@   ensures ret != nil ==> wrSame(w.w)
+//@   assigns w.w.$wlen, w.w.$nchunks, w.w.$lastchunk, w.w.$prevchunk
+
+//@ func BufferWriter.WriteBinary
+//@   arith int
+//@   props C01
+//@   requires !isnil(w.w) && sizeOK(len(v))
+//@   ensures ret == nil ==> w.w.$wlen == old(w.w.$wlen) + 4 + len(v) && w.w.$nchunks == old(w.w.$nchunks) + 2 &&
+//@           len(w.w.$prevchunk) == 4 && encI32(w.w.$prevchunk, 0, len(v)) && len(w.w.$lastchunk) == len(v) && eqbytes(w.w.$lastchunk, 0, v, 0, len(v))
+//@   assigns w.w.$wlen, w.w.$nchunks, w.w.$lastchunk, w.w.$prevchunk
+
+//@ func BufferWriter.WriteString
+//@   arith int
+//@   props C01
+//@   requires !isnil(w.w) && sizeOK(len(v))
+//@   ensures ret == nil ==> w.w.$wlen == old(w.w.$wlen) + 4 + len(v) && w.w.$nchunks == old(w.w.$nchunks) + 2 &&
+//@           len(w.w.$prevchunk) == 4 && encI32(w.w.$prevchunk, 0, len(v)) && len(w.w.$lastchunk) == len(v) && eqbytes(w.w.$lastchunk, 0, v, 0, len(v))
+//@   assigns w.w.$wlen, w.w.$nchunks, w.w.$lastchunk, w.w.$prevchunk
